@@ -32,7 +32,7 @@ EXEMPT = {
 
 def run(ctx):
     P = ctx.P
-    ents = c04_entries(P)
+    ents = c04_entries(P, include_persistence=True)
     builders = [q for q in ('CommitBuilder::build', 'CommitBuilder::build_detached') if P.has_fn(q)]
     sums, fa = run_entries(P, ents + builders, mode='storage')
     from ..core.fa_rule import fail_atomic_grouped, mod_paths
